@@ -194,10 +194,12 @@ namespace occa {
             variable = ((rightUnaryOpNode*) exprSmnt.expr)->value;
           }
           // Build source code
+          // atomicInc/atomicDec take a wrap-around bound as second argument and
+          // only exist for unsigned int: they are not an increment/decrement
           if (opType & operatorType::increment) {
-            pout << "atomicInc(&" << expr::parens(variable) << ");";
+            pout << "atomicAdd(&" << expr::parens(variable) << ", 1);";
           } else if (opType & operatorType::decrement) {
-            pout << "atomicDec(&" << expr::parens(variable) << ");";
+            pout << "atomicSub(&" << expr::parens(variable) << ", 1);";
           } else {
             exprSmnt.printError("Unable to transform @atomic code");
             return false;
